@@ -16,8 +16,8 @@ VERUS_UNITS = {
 
 PROPERTIES = {
     "C01": {"verus": ["V-frame", "V-range", "V-index", "V-prec"], "kani": ["K-number"]},
-    "C05": {"verus": ["V-frame"], "kani": ["K-emit"]},
-    "C06": {"verus": ["V-frame", "V-vmproto", "V-range", "V-lexer", "V-cursors", "V-adaptors", "V-strslice", "V-index", "V-debuginfo", "V-bind"], "kani": ["K-number", "K-emit", "K-strslice"]},
+    "C05": {"verus": ["V-frame"], "kani": ["K-emit", "K-varint"]},
+    "C06": {"verus": ["V-frame", "V-vmproto", "V-range", "V-lexer", "V-cursors", "V-adaptors", "V-strslice", "V-index", "V-debuginfo", "V-bind"], "kani": ["K-number", "K-emit", "K-strslice", "K-varint"]},
     "C02": {"verus": ["V-bind"], "kani": []},
     "C04": {"verus": ["V-vmproto"], "kani": []},
     "C07": {"verus": ["V-vmproto"], "kani": []},
